@@ -36,10 +36,11 @@ NOTE, NC, BAR, TR, INS, KEYS = ("mingus.containers.note", "mingus.containers.not
 
 # ------------------------------------------------------------------------------ scenario construction
 class Scenario:
-    def __init__(self, bars, instrument, name="Lead"):
+    def __init__(self, bars, instrument, name="Lead", meters=None):
         self.bars = bars  # list of list of kinds
         self.instrument = instrument  # None | int program number
         self.name = name
+        self.meters = meters  # None: (4,4), (6,8), (3,4) in turn
 
 
 KINDS = {"R": 0, "E": 0, "N1": 1, "N2": 2, "N3": 3, "T2": 2}
@@ -72,7 +73,7 @@ def build(repo, sc):
             edesc.append((k, v, notes, content.attrs.get("bpm") if content is not None else None))
         keyname = ["C", "f#", "Bb"][bi % 3]
         key = AObj(keyci, {"key": keyname, "mode": "minor" if keyname[0].islower() else "major", "name": "display name", "signature": None}, name="key")
-        meter = [(4, 4), (6, 8), (3, 4)][bi % 3]
+        meter = sc.meters[bi] if sc.meters else [(4, 4), (6, 8), (3, 4)][bi % 3]
         bars.append(AObj(barci, {"bar": entries, "meter": meter, "key": key}, name="bar%d" % bi))
         desc.append((meter, keyname, edesc))
     ins = None
@@ -90,7 +91,9 @@ def expected_events(sc, desc, tickof):
     ev.append((Lin({}, 0), "name", sc.name))
     need_instr = sc.instrument is not None
     for meter, keyname, entries in desc:
-        ev.append((now, "meter", meter))
+        if meter[1] != 0:
+            # (the unbounded (0, 0) meter has no time signature: the bar is written without one)
+            ev.append((now, "meter", meter))
         ev.append((now, "key", keyname))
         for k, v, notes, bpm in entries:
             t = tickof(v)
@@ -245,6 +248,9 @@ def scenarios(thorough):
     for first, second in ((["N1", "R"], ["N2"]), (["R"], ["R", "N1"]), (["N2"], ["T2", "R"]), (["R", "R"], ["R"]), (["R", "N1"], ["N1"])):
         for ins in (None, 40):
             out.append(Scenario([first, second], ins))
+    # bars in free time (the unbounded (0, 0) meter Bar accepts on purpose), alone and after a metered bar
+    out.append(Scenario([["N1", "R", "N2"]], None, meters=[(0, 0)]))
+    out.append(Scenario([["N1", "R"], ["R", "N2"]], 13, meters=[(4, 4), (0, 0)]))
     if thorough:
         for a in base:
             for b in base:
@@ -265,6 +271,7 @@ def run(ctx):
     rule_header_body(ctx)
     rule_arguments(ctx)
     rule_key_signature(ctx)
+    rule_time_signature(ctx)
     rule_vlq(ctx)
     rule_writers(ctx)
     ctx.floor("R-C16-3", 40)
@@ -279,7 +286,7 @@ def run(ctx):
 def rule_stream(ctx, R="R-C16-3"):
     fi = ctx.repo.find_method(ctx.repo.mod(MT).cls("MidiTrack"), "play_Bar")
     for sc in scenarios(ctx.tier == "thorough"):
-        label = "%s%s" % ("|".join(",".join(b) for b in sc.bars), "" if sc.instrument is None else " +instr")
+        label = "%s%s%s" % ("|".join(",".join(b) for b in sc.bars), "" if sc.instrument is None else " +instr", "" if not sc.meters else " meters %s" % (sc.meters,))
         try:
             paths = run_scenario(ctx, sc)
         except CannotDecide as e:
@@ -508,6 +515,39 @@ def rule_key_signature(ctx):
                 ctx.check(got == want, R, "set_key[%s,%s]" % (key, form), f.where(), "MidiTrack.set_key(%s %r)" % (form, key),
                           "key %r (given as %s) is written as %s, expected %s (signature %d, %s)" % (
                               key, form, got if got is not None else [(x.kind, x.value) for x in p], want, sig, "minor" if key[0].islower() else "major"))
+
+
+def rule_time_signature(ctx):
+    """FF 58 04 nn dd 18 08 with nn the count and 2**dd the unit; a count that does not fit the one byte the format
+    has for it is refused, never written as something else."""
+    R = "R-C16-6"
+    repo = ctx.repo
+    mtci = repo.mod(MT).cls("MidiTrack")
+    f = repo.find_method(mtci, "set_meter")
+    for meter, fits in (((4, 4), True), ((1, 1), True), ((12, 8), True), ((7, 16), True), ((255, 128), True), ((0, 4), True),
+                        ((256, 4), False), ((4095, 4), False), ((4096, 4), False), ((70000, 2), False)):
+        def go(it, meter=meter):
+            md.install(it)
+            mt = AObj(mtci, {"delta_time": md.Delta(b"\x00"), "track_data": b""}, name="mt")
+            it.call_function(f, [mt, meter], {})
+            return mt
+        try:
+            p = explore(lambda c_: Interp(repo, c_), go)
+        except CannotDecide as e:
+            raise AnalysisError("set_meter(%r): %s" % (meter, e))
+        got = None
+        if len(p) == 1 and p[0].kind == "return":
+            td = p[0].value.attrs.get("track_data")
+            if isinstance(td, md.EvSeq) and len(td.items) == 1:
+                got = td.items[0].payload.items()
+        if fits:
+            dd = {1: 0, 2: 1, 4: 2, 8: 3, 16: 4, 32: 5, 64: 6, 128: 7}[meter[1]]
+            want = [0xFF, 0x58, 0x04, meter[0], dd, 0x18, 0x08]
+            ok, why = got == want, "meter %s/%s is written as %s, expected %s" % (meter[0], meter[1], got if got is not None else [(x.kind, x.value) for x in p], want)
+        else:
+            ok = bool(p) and all(x.kind == "raise" for x in p)
+            why = "a count of %d does not fit the time signature's one byte, yet set_meter gives %s" % (meter[0], got if got is not None else [(x.kind, x.value) for x in p])
+        ctx.check(ok, R, "set_meter[%d/%d]" % meter, f.where(), "MidiTrack.set_meter((%d, %d))" % meter, why)
 
 
 def rule_vlq(ctx):
